@@ -146,7 +146,7 @@ def run(chk, model_ok=True):
 
     # 1. sign() on arbitrary buffers and offsets: implementation vs model vs hashlib
     st = streams.Streams(chk, model_ok)
-    st.add("sign", lines_sign(rng, 300 if quick else 6000))
+    st.add("sign", lines_sign(rng, 900 if quick else 18000))
     st.run()
     for ln, out in zip(st.lines, st.impl):
         if out in ("<nobuild>", "<died>"):
@@ -156,7 +156,7 @@ def run(chk, model_ok=True):
             fail(why, ln)
     st.diff("sign")
     # 2. session histories: every digest x cipher x key type, identities that move the offset
-    n_hist = 40 if quick else 900
+    n_hist = 120 if quick else 2700
     all_sess = []
     n_msg = 0
     hist = {}
